@@ -89,11 +89,14 @@ pub fn run_c19(cfg: &ShardCfg, out: &mut ShardOut) {
         let mut big_merge = false;
         let mut big_slice = false;
         let mut cut = false;
+        let mut panicked = false;
         for _ in 0..len {
             let op = gen.next_op(&s.m);
             let o = s.step(&op);
             if o.panic.is_some() {
-                cut = true;
+                // a legal call that panics in this configuration: keep it as the last call of the history —
+                // if other configurations (or a second run) do not panic there, the answers differ
+                panicked = true;
                 break;
             }
             match &op {
@@ -130,6 +133,9 @@ pub fn run_c19(cfg: &ShardCfg, out: &mut ShardOut) {
         if cut {
             out.counters.inc("history.cut-by-foreign-panic");
             continue;
+        }
+        if panicked {
+            out.counters.inc("c19.history-ends-with-a-panicking-call");
         }
         let ops = std::mem::take(&mut s.ops);
         let labels = crate::hist::labels_of(&ops);
